@@ -242,6 +242,17 @@ func c06History(r *rand.Rand, n int, script []func(ov dom.OverlayDocument, ref *
 					return
 				}
 				ov.Populate(layer, path, &data)
+				if r.Intn(4) == 0 { // (on an overlay of its own) a populated map may hold lists with null items: every item once, in place
+					pm := map[string]any{"servers": []any{"alpha", nil, "gamma"}, "n": map[string]any{"l": []any{nil, nil, 1, []any{nil, 2}}}}
+					ov2 := dom.NewOverlayDocument()
+					ov2.Populate("p", "", &pm)
+					if got := nodeToAny(ov2.Layers()["p"]); !reflect.DeepEqual(got, any(pm)) {
+						fail = append(fail, fmt.Sprintf("Populate of %v gives layer %v", pm, got))
+					}
+					if n := ov2.Lookup("p", "servers[2]"); n == nil || !n.IsLeaf() || n.(dom.Leaf).Value() != "gamma" {
+						fail = append(fail, "after Populate with a null list item, Lookup(servers[2]) is not the third item")
+					}
+				}
 				lm := ref.ensure(layer)
 				f := func(s map[string]any) {
 					for _, k := range sortedKeys(data) {
